@@ -179,7 +179,7 @@ PROPS["C16"] = dict(
 
 PROPS["C11"] = dict(
     pkg="c11", level="exploration",
-    prebuild="go1.26.8 run ./c11/gen -seed ${VERIF_SEED:-1} -prefix g -out c11/sites_gen_test.go",
+    prebuild="go1.26.8 run ./c11/gen -seed ${VERIF_SEED:-1} -prefix g -n 900 -out c11/sites_gen_test.go",
     technique="program generation (call-site programs of many shapes with the expectation computed by runtime.Caller on the same source line) driven by rapid sequences over lookup modes and repeated visits",
     level_text="Exploration over programs and configurations: a seeded generator writes hundreds of call sites (15 entry points x 17 shapes incl. closures, defers, goroutines, method values, generics, inlinable/noinline helpers, Record through 1-2 wrapper frames); the committed seed-1 program plus one generated from VERIF_SEED are compiled in, and rapid sequences flip default/fast lookup and caller on/off between repeated visits (frame-cache hits); Event.File/Line must equal the position runtime.Caller reports for the same source line.",
     level_note="Trusted: runtime.Caller as the position oracle. The family of generated programs is finite (no cgo, assembly or multi-line call expressions).",
@@ -187,6 +187,7 @@ PROPS["C11"] = dict(
     steps=[
         dict(test="^Test(Regress_C11|C11_Sites)$", quick=dict(checks=150, timeout=900), thorough=dict(checks=6000, shards=8, timeout=3000)),
         dict(test="^TestC11_Concurrent$", quick=dict(timeout=900), thorough=dict(timeout=3000)),
+        dict(test="^TestC11_ManySites$", quick=dict(checks=3, timeout=900), thorough=dict(checks=60, shards=2, timeout=3000)),
     ],
 )
 
